@@ -330,10 +330,10 @@ where
         let mut left_cumulative = cdf.next().expect("cdf is not empty");
         let cdf = cdf.chain(core::iter::once(wrapping_pow2(PRECISION)));
 
-        let symbol_table = symbols
-            .into_iter()
-            .zip(cdf)
-            .map(|(symbol, right_cumulative)| {
+        let mut symbols = symbols.into_iter();
+        let symbol_table = cdf
+            .zip(symbols.by_ref())
+            .map(|(right_cumulative, symbol)| {
                 let probability = right_cumulative
                     .wrapping_sub(&left_cumulative)
                     .into_nonzero()
@@ -343,7 +343,13 @@ where
                 (symbol, old_left_cumulative, probability)
             });
 
-        Ok(Self::from_symbol_table(symbol_table))
+        let model = Self::from_symbol_table(symbol_table);
+        if model.cdf.len() != probabilities.len() + 1 || symbols.next().is_some() {
+            // Numbers of symbols and of probabilities don't match (a too short lookup table
+            // would be read out of bounds by `quantile_function`).
+            return Err(());
+        }
+        Ok(model)
     }
 
     /// Deprecated constructor.
